@@ -55,16 +55,29 @@ IdlCases ==
 \* pols : policy vector (connect order); nb: metadata blocks; par: ParallelMetadataDownloads;
 \* late : 1 = the liars connect first and act only after every peer has completed its extension handshake;
 \* priv : 1 = the info dictionary is private
+\* ord  : 1 = the honest peers answer the pipelined requests in REVERSE order (0 = in the order of the requests);
+\* lay  : layout of the info dictionary: 0 = many files (blocks full of path names), 1 = one file with very many pieces
+\*        (every block but the first lies inside the "pieces" string: blocks can trade places and the result still parses)
+\* "swap" : liar that sends the genuine payloads in the genuine order, all sizes right, every index requested - but the
+\*          last two full-size blocks carry each other's index (needs nb >= 3; honest-like below that)
 EPol  == {"honest", "total", "sizeplus", "sizeminus", "badlen", "dup", "unreq", "garbage", "reject", "stall", "over", "capmax",
-          "drop", "junk", "proto", "nometa", "forge", "huge", "neg"}
+          "drop", "junk", "proto", "nometa", "forge", "huge", "neg", "swap"}
 Liars == EPol \ {"honest"}
-E2E(pv, nb, pa, la, pr) == [k |-> "e2e", pols |-> pv, nb |-> nb, par |-> pa, late |-> la, priv |-> pr]
+E2EX(pv, nb, pa, la, pr, od, ly) ==
+    [k |-> "e2e", pols |-> pv, nb |-> nb, par |-> pa, late |-> la, priv |-> pr, ord |-> od, lay |-> ly]
+E2E(pv, nb, pa, la, pr) == E2EX(pv, nb, pa, la, pr, 0, 0)
 E2ECases ==
     {E2E(<<a>>, nb, 1, 0, pr) : a \in EPol, nb \in {1, 2, 3}, pr \in {0, 1}}
     \cup {E2E(<<a, "honest">>, nb, pa, la, 0) : a \in Liars, nb \in {1, 2}, pa \in {1, 2}, la \in {0, 1}}
     \cup {E2E(<<"honest", a>>, nb, 1, 0, 0) : a \in Liars, nb \in {2}}
     \cup {E2E(<<a, b, "honest">>, 2, pa, la, 0) : a \in Liars, b \in Liars, pa \in {1, 2}, la \in {0, 1}}
     \cup {E2E(<<a, b>>, 2, 2, 0, 0) : a \in Liars, b \in Liars}
+    \* arrival order and index labels (the classes "order" of props/c13.py)
+    \cup {E2EX(<<"honest">>, nb, 1, 0, 0, 1, ly) : nb \in {2, 3, 4}, ly \in {0, 1}}
+    \cup {E2EX(<<"swap">>, nb, 1, 0, 0, 0, ly) : nb \in {3, 4}, ly \in {0, 1}}
+    \cup {E2EX(<<"swap", "honest">>, nb, pa, la, 0, od, 1) : nb \in {3, 4}, pa \in {1, 2}, la \in {0, 1}, od \in {0, 1}}
+    \cup {E2EX(<<"honest", "swap">>, 4, 1, 0, 0, od, 1) : od \in {0, 1}}
+    \cup {E2EX(<<a, "honest">>, 3, pa, la, 0, 1, ly) : a \in Liars, pa \in {1, 2}, la \in {0, 1}, ly \in {0, 1}}
 
 Cases == MagCases \cup IdlCases \cup E2ECases
 
